@@ -5,7 +5,7 @@ for prop in "$@"; do
   for w in A B; do
     d=/tmp/agents/${prefix}$prop/out
     [ -f $d/patch$w.diff ] || { echo "$prop $w : no patch"; continue; }
-    out=$(PREFIX=$prefix /verif/tools/confirm.sh $prop $w $prop 2>&1)
+    out=$(PREFIX=$prefix ${VERIF_DIR:-/verif}/tools/confirm.sh $prop $w $prop 2>&1)
     dp=$(echo "$out" | grep 'demo on pristine' | sed 's/.*exit //')
     dm=$(echo "$out" | grep 'demo with patch' | sed 's/.*exit //')
     ts=$(echo "$out" | grep -E 'passed|failed' | head -1 | cut -c1-40)
